@@ -51,9 +51,9 @@ func (c10Prop) Race() bool    { return false }
 
 func (c10Prop) Count(tier string) int {
 	if tier == "thorough" {
-		return 150000
+		return 400000
 	}
-	return 3000
+	return 10000
 }
 
 func (c10Prop) Rule() string {
@@ -129,8 +129,10 @@ func (c10Prop) Generate(seed uint64, idx int, tier string) *Plan {
 			op.Op = "ralloc"
 		case x < 95:
 			op.Op = "rstr"
-		case x < 98:
+		case x < 97:
 			op.Op = "rdecode"
+		case x < 98:
+			op.Op = "tzchurn"
 		default:
 			op.Op = "rextract"
 		}
@@ -520,6 +522,8 @@ func poisonReachable(v reflect.Value) {
 		}
 	}
 }
+
+var c10TimeCodec avro.Codec
 
 func (c10Prop) Execute(p *Plan, run *Run) any {
 	pl := p.C10
@@ -932,6 +936,54 @@ func (c10Prop) Execute(p *Plan, run *Run) any {
 			executed++
 			run.Evals++
 			run.Log.Add("op %d close held %d", opi, h.id)
+			sigged()
+			checkAll(opi, what)
+		case "tzchurn":
+			// unrelated timestamp parsing elsewhere in the process: 70 zone offsets
+			// never seen in the files. Whatever the parser caches per offset, the
+			// times already delivered keep their zone.
+			if c10TimeCodec == nil {
+				if sch, err := avro.SchemaForType(TimeOnly{}); err == nil {
+					c10TimeCodec, _ = sch.Codec(TimeOnly{})
+				}
+			}
+			if c10TimeCodec == nil {
+				run.Infra("c10: cannot build the timestamp codec")
+				return nil
+			}
+			var perr error
+			pan, site := lib(func() {
+				for i := 0; i < 70; i++ {
+					offMin := (op.A+i*23)%1679 - 839
+					sign := "+"
+					if offMin < 0 {
+						sign, offMin = "-", -offMin
+					}
+					ts := fmt.Sprintf("2011-03-04T05:06:07%s%02d:%02d", sign, offMin/60, offMin%60)
+					var payload []byte
+					payload = ref.AppendLong(payload, 1)
+					payload = ref.AppendLong(payload, int64(len(ts)))
+					payload = append(payload, ts...)
+					var out TimeOnly
+					rb := avro.NewReadBuf(payload)
+					if err := c10TimeCodec.Read(rb, unsafe.Pointer(&out)); err != nil {
+						perr = err
+					}
+					rb.ExtractResourceBank().Close()
+				}
+			})
+			if pan != nil {
+				fail(opi, "c10/panic", site, fmt.Sprintf("op %d: parsing timestamps panicked: %v", opi, pan))
+				break
+			}
+			if perr != nil {
+				run.Infra("c10: a well-formed timestamp did not parse: " + perr.Error())
+				return nil
+			}
+			executed++
+			run.Evals++
+			run.Faults.Inc("tz-churn(70 offsets)")
+			run.Log.Add("op %d tzchurn", opi)
 			sigged()
 			checkAll(opi, what)
 		case "ualloc", "uintern":
